@@ -245,6 +245,9 @@ func (c *Client) exec(s *Step) error {
 		if g := c.Plan.SessionGroup; g != 0 {
 			cfg.ClientSessionCache = c.W.sessionCache(g)
 			cfg.OmitEmptyPsk = true
+			// a hello without the pre_shared_key extension simply does not resume (utls panics
+			// otherwise when the shared cache already holds a session for the name)
+			cfg.PreferSkipResumptionOnNilExtension = true
 			if cfg.ServerName == "" {
 				cfg.ServerName = "resume.verif.test"
 			}
